@@ -187,7 +187,11 @@ def _worker(args):
             client = v.make(httpx.MockTransport(handler))
             for st, raw in cases:
                 cur["st"], cur["raw"] = st, raw
-                resp = await client.execute(QUERY, operation_name="Q", variables={})
+                try:
+                    resp = await client.execute(QUERY, operation_name="Q", variables={})
+                except Exception as e:  # noqa: BLE001 — nothing may escape execute for a scripted response
+                    out.append(("execute-raised", f"{type(e).__name__}"))
+                    continue
                 out.append(observe(v, client, resp))
             await client.http_client.aclose()
         _clients.run_coro(go())
@@ -195,7 +199,11 @@ def _worker(args):
         client = v.make(httpx.MockTransport(handler))
         for st, raw in cases:
             cur["st"], cur["raw"] = st, raw
-            resp = client.execute(QUERY, operation_name="Q", variables={})
+            try:
+                resp = client.execute(QUERY, operation_name="Q", variables={})
+            except Exception as e:  # noqa: BLE001
+                out.append(("execute-raised", f"{type(e).__name__}"))
+                continue
             out.append(observe(v, client, resp))
         client.http_client.close()
     return v.name, out
@@ -242,7 +250,7 @@ def run(ctx):
     run.rule = ("exhaustive table: 30 status codes (24 standard incl. every class boundary + 6 out-of-range) x "
                 "body classes (10 non-JSON byte strings, 14 JSON non-objects, 10 data shapes x 27 errors shapes x "
                 "2 extra-key settings, encoding/duplicate-key variants) + seeded random JSON bodies, each through "
-                "execute+get_data of 6 client variants; a case is non-trivial when the status is 2xx (the body decides "
+                "execute+get_data of 8 client variants (the OpenTelemetry clients also with a no-op tracer and with a RECORDING tracer); a case is non-trivial when the status is 2xx (the body decides "
                 "the outcome); distinct by (status, body bytes)")
     run.assumptions += [
         "CPython json.loads / httpx.Response.json decide what is JSON (bodies are JSON or not by construction)",
@@ -284,6 +292,9 @@ def run(ctx):
             exp = k3_expected(st, c)
             if exp is not None and o != exp:
                 k3_fail.append((vname, st, c, o, exp))
+            elif exp is None and o[0] == "execute-raised":
+                # the response never reached get_data: "no other exception type escapes" fails whatever the body
+                k3_fail.append((vname, st, c, o, ("(any get_data outcome)",)))
             if vname == results[0][0]:
                 kinds[mo[0]] = kinds.get(mo[0], 0) + 1
                 run.dist("status_class", "2xx" if 200 <= st <= 299 else ("out-of-range" if st in STATUSES_ODD else f"{st // 100}xx"))
